@@ -67,6 +67,8 @@ type Net struct {
 	udp       map[string]*UDPSock
 	OpaqueStreams bool // stream contents are not part of the canonical log (see TCPConn.Write)
 	EOFWithData bool // stream reads return their last bytes together with io.EOF (Extra "eof_with_data")
+	SilentTCP   string // "ip:port" that never answers a SYN (a host behind a filter that drops): Extra "silent_peer"
+	SilentDials []int64 // instants at which somebody dialled it
 	tcpl      map[string][]*TCPListener // several listeners on one address only with SO_REUSEPORT on all of them
 	tcplRR    map[string]int
 	names     map[string]string // "ip:port" -> actor name; "ip" -> actor name
@@ -85,7 +87,16 @@ type Net struct {
 func NewNet(k *Kernel) *Net {
 	return &Net{K: k, udp: map[string]*UDPSock{}, tcpl: map[string][]*TCPListener{}, tcplRR: map[string]int{}, names: map[string]string{},
 		flowCount: map[string]int{}, ioCount: map[string]int{}, ephemeral: map[string]int{}, ServerIPs: map[string]bool{},
-		LatCS: k.Plan.Cfg.LatCSns, LatSP: k.Plan.Cfg.LatSPns, EOFWithData: k.Plan.Cfg.Extra["eof_with_data"] == 1}
+		LatCS: k.Plan.Cfg.LatCSns, LatSP: k.Plan.Cfg.LatSPns, EOFWithData: k.Plan.Cfg.Extra["eof_with_data"] == 1, SilentTCP: silentPeerOf(k.Plan)}
+}
+
+const silentPeerAddr = "10.0.2.88:9"
+
+func silentPeerOf(p *Plan) string {
+	if p.Cfg.Extra["silent_peer"] == 1 {
+		return silentPeerAddr
+	}
+	return ""
 }
 
 func akey(ip net.IP, port int) string { return net.JoinHostPort(ip.String(), strconv.Itoa(port)) }
@@ -681,6 +692,13 @@ func (n *Net) DialAsync(role string, laddr, raddr *net.TCPAddr, done func(c *TCP
 	nth := n.flowCount[flow+"|syn"]
 	n.mu.Unlock()
 	lat := n.latency(laddr.IP, raddr.IP, flow)
+	if n.SilentTCP != "" && akey(raddr.IP, raddr.Port) == n.SilentTCP {
+		k.Stats.Fault("net:syn-blackhole")
+		n.mu.Lock()
+		n.SilentDials = append(n.SilentDials, k.Now())
+		n.mu.Unlock()
+		return
+	}
 	for i := range k.Plan.NetFaults {
 		f := &k.Plan.NetFaults[i]
 		if matchStr(f.M.Flow, flow) && f.M.What == "syn" && (f.M.Nth == 0 || f.M.Nth == nth) {
@@ -745,7 +763,9 @@ func (n *Net) Dial(role string, laddr, raddr *net.TCPAddr, timeout time.Duration
 	ch := make(chan res, 1)
 	n.DialAsync(role, laddr, raddr, func(c *TCPConn, err error) { ch <- res{c, err} })
 	if timeout <= 0 {
-		timeout = 30 * time.Second
+		// what a Linux host does by default with a SYN that is never answered: six
+		// retransmissions, 1+2+4+8+16+32+64 s, then ETIMEDOUT
+		timeout = 127 * time.Second
 	}
 	t := time.NewTimer(timeout)
 	select {
